@@ -128,6 +128,7 @@ theorem add_nat (a b : Nat) : Py.add (.int (a : Int)) (.int (b : Int)) = .ok (.i
 
 theorem add_lit (off k : Nat) : Py.add (.int (off : Int)) (.int (Int.ofNat k)) = .ok (.int ((off + k : Nat) : Int)) := add_nat off k
 
+set_option maxHeartbeats 20000 in  -- a proof of 2 s; the cap makes a broken tie (rewritten source) fail in seconds, not minutes
 /-- **`NetworkInfoStructure.decode`** (as called by `DeviceAvailableResponse.decode_message`: no data dict yet) = `Net.decodeAt`:
 the decoded `NetworkInfo` under the key "network" and the offset advanced by 25; a rejected message raises `decodeErr` -/
 theorem NetworkInfoStructure_decode_eq (self : V) (m : List UInt8) (off : Nat) :
